@@ -61,6 +61,19 @@ def strategy_(draw, tier):
     g, case = draw(idx.indexed_file(tier, max_records=20))
     case.pop("_twice")
     case["regions"] = [draw(st.lists(region(g), min_size=1, max_size=4 if k else 1)) for k in range(4)]
+    # the same interval text on another contig (chr1:10-50 and chr2:10-50 are different regions), and a region given twice
+    extents = {}
+    for n, d in g["nodes"].items():
+        extents[d["sn"]] = max(extents.get(d["sn"], 0), d["so"] + d["ln"])
+    for regs in case["regions"][1:]:
+        if draw(st.integers(0, 2)) == 0:
+            c0, iv = regs[0].rsplit(":", 1)
+            b0 = int(iv.split("-")[1])
+            others = sorted(c for c, e in extents.items() if c != c0 and b0 < e)
+            if others:
+                regs.insert(draw(st.integers(0, len(regs))), "%s:%s" % (draw(st.sampled_from(others)), iv))
+            else:
+                regs.append(regs[0])
     case["via"] = draw(st.sampled_from(["api", "api", "cli", "cli_stdout"]))
     return case
 
